@@ -169,14 +169,14 @@ func (ex *exec) rcall(name string, args ...value) value {
 
 func init() {
 	reg("reflect.ValueOf", func(ex *exec, fr *frame, fn *ssa.Function, a []value) value {
-		i := a[0].(iface)
+		i := ex.force(a[0].(iface))
 		if i.t == nil {
 			return rvalue{}
 		}
 		return rvalue{t: i.t, v: i.v}
 	})
 	reg("reflect.TypeOf", func(ex *exec, fr *frame, fn *ssa.Function, a []value) value {
-		i := a[0].(iface)
+		i := ex.force(a[0].(iface))
 		return ex.rtypeIface(i.t)
 	})
 	reg("reflect.Zero", func(ex *exec, fr *frame, fn *ssa.Function, a []value) value {
@@ -244,7 +244,7 @@ func init() {
 		return rvalue{t: s.t, v: ex.appendValues(st.Elem(), sv, tv)}
 	})
 	reg("reflect.DeepEqual", func(ex *exec, fr *frame, fn *ssa.Function, a []value) value {
-		x, y := a[0].(iface), a[1].(iface)
+		x, y := ex.force(a[0].(iface)), ex.force(a[1].(iface))
 		if x.t == nil || y.t == nil {
 			return x.t == nil && y.t == nil
 		}
@@ -308,7 +308,7 @@ func init() {
 			}
 			return rvalue{t: r.t.Underlying().(*types.Pointer).Elem(), addr: p, ro: r.ro}
 		case reflect.Interface:
-			i := r.get().(iface)
+			i := ex.force(r.get().(iface))
 			if i.t == nil {
 				return rvalue{}
 			}
@@ -471,7 +471,7 @@ func init() {
 		case *jsonBlob:
 			return x == nil
 		case iface:
-			return x.t == nil
+			return ex.force(x).t == nil
 		case *gochan:
 			return x == nil
 		case *ssa.Function, *closure, *intrinsicFn, *ssa.Builtin:
@@ -942,7 +942,7 @@ func (ex *exec) isZeroTerm(t types.Type, v value) *Term {
 	case *jsonBlob:
 		return tt.Bool(x == nil)
 	case iface:
-		return tt.Bool(x.t == nil)
+		return tt.Bool(ex.force(x).t == nil)
 	case *gochan:
 		return tt.Bool(x == nil)
 	case *ssa.Function, *closure, *intrinsicFn:
@@ -1037,7 +1037,7 @@ func (ex *exec) deepEq(t types.Type, x, y value, depth int) *Term {
 		}
 		return r
 	case *types.Interface:
-		xi, yi := x.(iface), y.(iface)
+		xi, yi := ex.force(x.(iface)), ex.force(y.(iface))
 		if xi.t == nil || yi.t == nil {
 			return tt.Bool(xi.t == nil && yi.t == nil)
 		}
